@@ -91,6 +91,11 @@ def perturbations(spec):
             p = copy.deepcopy(spec)
             p["attrs"][a] = "added" if a not in gen.VOCAB_ATTRS else gen.VOCAB_ATTRS[a][0]
             yield "attr-added", p
+            if a not in gen.VOCAB_ATTRS:
+                for literal in ("None", "", "0", "False"):  # texts that look like what an absent value prints as
+                    p = copy.deepcopy(spec)
+                    p["attrs"][a] = literal
+                    yield "attr-added-pythonic", p
     if spec.get("text") is not None:
         p = copy.deepcopy(spec)
         p["text"] = _change_text(spec["kind"], spec["text"])
@@ -112,6 +117,14 @@ def perturbations(spec):
             else:
                 p["children"][i]["attrs"][a] = "added"
                 yield f"child-attr-added-{pos}", p
+                for literal in ("None", ""):
+                    p = copy.deepcopy(spec)
+                    p["children"][i]["attrs"][a] = literal
+                    yield f"child-attr-added-pythonic-{pos}", p
+        if c.get("text") is None and prule in ("free", "number", "base64"):
+            p = copy.deepcopy(spec)
+            p["children"][i]["text"] = "None" if prule == "free" else ("0" if prule == "number" else "QQ==")
+            yield f"child-text-added-{pos}", p
         p = copy.deepcopy(spec)
         p["children"][i]["text"] = _change_text(c["kind"], c.get("text"))
         yield f"child-text-changed-{pos}", p
